@@ -117,9 +117,9 @@ Run(S, indr, plan, k, cur, acc, ext) ==
                                [cells |-> acc.cells \cup {<<e.fr, c>> : c \in c0..e.c1}, x |-> acc.x \/ withX, xs |-> acc.xs \cup {e.fr}], ext)
                       ELSE [ok |-> FALSE, cur |-> cur, cells |-> acc.cells, x |-> acc.x, ext |-> ext, xs |-> acc.xs]
 
-PlanOK(S, indr, start, stop, step, chs) ==
-    LET plan == Plan(S, indr, start, stop, step, chs)
-        r == Run(S, indr, plan, 1, 0, [cells |-> {}, x |-> FALSE, xs |-> {}], 0)
+(* the abstract statement about ANY plan for the case (the transcribed planner's, or one the real planner emitted) *)
+PlanJudged(S, indr, start, stop, step, chs, plan) ==
+    LET r == Run(S, indr, plan, 1, 0, [cells |-> {}, x |-> FALSE, xs |-> {}], 0)
         sel == Selected(start, stop, step)
         lastf == CHOOSE f \in sel : \A g \in sel : g <= f
     IN /\ r.ok
@@ -127,6 +127,7 @@ PlanOK(S, indr, start, stop, step, chs) ==
        /\ (indr > 0 => r.x)                                                   \* the indirect X was read (once, first)
        /\ r.cur <= indr + (lastf + 1) * FrameSize(S)                          \* never beyond the last selected frame
        /\ r.cur = indr + (lastf + 1) * FrameSize(S)                           \* and left at a frame boundary (not mid-frame)
+PlanOK(S, indr, start, stop, step, chs) == PlanJudged(S, indr, start, stop, step, chs, Plan(S, indr, start, stop, step, chs))
 
 ChSeqs == UNION {[1..n -> SizeMenu] : n \in 1..MaxCh}
 SubsetsOf(n) == {SetToSortSeq(T, <) : T \in (SUBSET (0..(n - 1))) \ {{}}}
